@@ -1,5 +1,7 @@
 import Driver.Common
 import ClarabelModel.Loop
+import ClarabelModel.Timers
+import ClarabelModel.NewGuards
 
 open Clarabel Clarabel.Loop Clarabel.Loop.Wire Driver
 
@@ -36,6 +38,39 @@ def fmtPrev (i : Info Float) : String :=
   fmtFloats #[i.prevCostPrimal, i.prevCostDual, i.prevResPrimal, i.prevResDual, i.prevGapAbs, i.prevGapRel]
 def fmtCur (i : Info Float) : String :=
   fmtFloats #[i.costPrimal, i.costDual, i.resPrimal, i.resDual, i.gapAbs, i.gapRel]
+
+
+/-! ### timers -/
+open Clarabel.Timers in
+/-- `at=… stack=… keys=… running=…` of a run of the timer machine with the clock `0` -/
+def fmtTimerRun (ops : List Timers.Op) : String :=
+  let z : Timers.Clock := fun _ _ => 0
+  let r := Timers.runUntil z z 0 ops Timers.State.empty []
+  let at_ := match r.1 with | some k => toString k | none => "-"
+  s!"at={at_} {Timers.Wire.fmtShape r.2.1}"
+
+/-- pass shapes from the arrays `d<i> f<i> s<i> k<i>` of solve number `i` -/
+def passShapes (kv : KV) (i : Nat) : Option (List Timers.PassShape) := do
+  let d ← kv.bools s!"d{i}"
+  let f ← kv.bools s!"f{i}"
+  let s ← kv.bools s!"s{i}"
+  let k ← kv.bools s!"k{i}"
+  if f.size != d.size || s.size != d.size || k.size != d.size then none
+  else pure ((List.range d.size).map fun j =>
+    { done := d[j]!, failLine := f[j]!, scaleOk := s[j]!, kktAffOk := k[j]! })
+
+/-- the class of a construction guard (the harness maps the panic messages to the same names) -/
+def guardClass : ModelErr → String
+  | .panic "assert:A-and-b-incompatible-dimensions" => "A-b"
+  | .panic "assert:constraint-dimensions-inconsistent-with-size-of-cones" => "cones"
+  | .panic "assert:A-and-q-incompatible-dimensions" => "A-q"
+  | .panic "assert:P-and-q-incompatible-dimensions" => "P-q"
+  | .panic "assert:P-not-square" => "P-square"
+  | .panic "assert dim >= 2" => "soc-dim"
+  | .panic "assert: powers > 0" => "genpow-positive"
+  | .panic "assert: powers sum to 1" => "genpow-sum"
+  | .panic _ => "other-panic"
+  | .err _ => "model-err"
 
 def handleC04 (ch : String) (kv : KV) : String :=
   match ch with
@@ -81,6 +116,50 @@ def handleC04 (ch : String) (kv : KV) : String :=
       match checkDimensions pm pn q am an b cs.toList with
       | .ok () => "ok"
       | .error e => fmtErr e
+    | _, _, _, _, _, _, _ => "bad-request"
+  | "timers.script" =>
+    -- ops + the harness clock before / after every call + what the real timers measured
+    match (kv.str "ops"), kv.nats "tb", kv.nats "ta", kv.nats "re", kv.nats "rr" with
+    | some opsS, some tb, some ta, some re, some rr =>
+      match (splitList (if opsS == "-" then "" else opsS)).mapM Timers.Wire.parseOp with
+      | none => "bad-request"
+      | some ops =>
+        if tb.size != ops.length || ta.size != ops.length then "bad-request" else
+        let cb : Timers.Clock := fun n _ => tb[n]!
+        let ca : Timers.Clock := fun n _ => ta[n]!
+        -- lower bound: intervals open late and close early; upper bound: the other way round
+        let lo := Timers.runUntil ca cb 0 ops Timers.State.empty []
+        let hi := Timers.runUntil cb ca 0 ops Timers.State.empty []
+        let at_ := match hi.1 with | some k => toString k | none => "-"
+        let ks := Timers.Wire.sortPaths hi.2.1.keys
+        let el (s : Timers.State) (p : Timers.Path) : Nat := match s.cell p with | some c => c.elapsed | none => 0
+        let inb := (List.range ks.length).map fun i =>
+          let p := ks[i]!
+          decide (el lo.2.1 p ≤ re[i]! ∧ re[i]! ≤ el hi.2.1 p) && decide (i < re.size)
+        let rdb := (List.range hi.2.2.length).map fun i =>
+          decide (lo.2.2[i]! ≤ rr[i]! ∧ rr[i]! ≤ hi.2.2[i]!) && decide (i < rr.size)
+        let dash (x : String) := if x.isEmpty then "-" else x
+        s!"at={at_} {Timers.Wire.fmtShape hi.2.1} inb={dash (fmtBools inb.toArray)} rdb={dash (fmtBools rdb.toArray)}"
+    | _, _, _, _, _ => "bad-request"
+  | "timers.solve" =>
+    -- `DefaultSolver::new` followed by `nsolve` calls of `solve()` with the recorded pass shapes
+    match kv.nat "nsolve" with
+    | some ns =>
+      let solves := (List.range ns).mapM fun i => do
+        let ps ← passShapes kv (i + 1)
+        let x ← kv.nat s!"x{i + 1}"
+        pure (Timers.solveOps ps (x != 0))
+      match solves with
+      | some l => fmtTimerRun (Timers.newOps ++ l.flatten) ++ " sum=1 mono=1"
+      | none => "bad-request"
+    | none => "bad-request"
+  | "new.guards" =>
+    match kv.nat "Pm", kv.nat "Pn", kv.nat "q", kv.nat "Am", kv.nat "An", kv.nat "b",
+          (kv.str "cones") >>= NewGuards.Wire.parseCones parseFloat with
+    | some pm, some pn, some q, some am, some an, some b, some cs =>
+      match NewGuards.newGuards pm pn q am an b cs with
+      | .ok () => "guard=ok"
+      | .error e => "guard=" ++ guardClass e
     | _, _, _, _, _, _, _ => "bad-request"
   | _ => "unknown-channel"
 
